@@ -80,6 +80,17 @@ def valid_chain(chain):
     return True
 
 
+# alternatives of Select / Optional resolve names in the scope they stand in, when building as when parsing
+SELECT_SCOPE = [
+    ("Struct('s'/Select(Bytes(this._params.n), Byte))", dict(n=2)), ("Struct('k'/Byte, 'in'/Struct('s'/Select(Bytes(this._root.k & 3), Byte)))", {}),
+    ("Struct('k'/Byte, 'in'/Struct('s'/Select(Bytes(this._.k & 3), Byte)))", {}), ("Struct('k'/Byte, 's'/Select(Struct('v'/Bytes(this._.k & 3)), Byte))", {}),
+    ("Struct('k'/Byte, 's'/Optional(Struct('v'/Bytes(this._root.k & 3))))", {}), ("Struct('k'/Byte, 's'/Optional(Struct('v'/Bytes(this._params.n))))", dict(n=1)),
+    ("Struct('in'/Struct('s'/Select(Struct('v'/Bytes(this._._params.n)), Byte)))", dict(n=2)), ("Sequence(Byte, Select(Bytes(this._params.n), Byte))", dict(n=3)),
+    ("Struct('obj'/Byte, 's'/Select(Const(b'\\x01'), Byte))", {}), ("Struct('self'/Byte, 'o'/Optional(Int16ub))", {}), ("Struct('stream'/Byte, 'context'/Byte, 'path'/Byte, 'o'/Optional(Byte))", {}),
+    ("Struct('k'/Byte, 's'/Select(If(this._building | this._parsing, Bytes(this.k & 1)), Byte))", {}),
+]
+
+
 def instances(tier, seed):
     rnd = random.Random(seed * 613 + 1)
     chains = []
@@ -167,6 +178,8 @@ def instances(tier, seed):
         for outer in ("Array(2, {})", "RepeatUntil(lambda o, l, c: len(l) == 2, {})", "GreedyRange({})"):
             out.append(dict(name="_index after an inner repeater resolves alike when parsing and when building: %s" % outer.format("Struct('vals'/%s, 'tag'/Bytes(this._index + 1))" % inner),
                             params=dict(kind="indexafter", outer=outer, inner=inner), expect=["ok"]))
+    for src_, kw in SELECT_SCOPE:
+        out.append(dict(name="scope inside the alternatives of Select / Optional: %s %s" % (src_, kw or ""), params=dict(kind="selectscope", source=src_, kw=kw), expect=["ok"]))
     for shape in ("flat", "nested", "root"):
         out.append(dict(name="the object a LazyStruct parsed builds again, forward references included: %s" % shape, params=dict(kind="lazybuild", shape=shape)))
     for shape in ("flat", "nested", "root"):
@@ -322,6 +335,14 @@ class Gen:
         return val, length, check
 
 
+def _plain(v):
+    if isinstance(v, dict):
+        return {k: _plain(x) for k, x in dict.items(v) if not (isinstance(k, str) and k.startswith("_"))}
+    if isinstance(v, list):
+        return [_plain(x) for x in v]
+    return v
+
+
 def harness(ctx, C, p):
     if p.get("kind") == "flags":
         return _flags(ctx, C, p)
@@ -404,6 +425,20 @@ def harness(ctx, C, p):
         rb = api.outcome(d.build, rp.value)
         ctx.check("the parsed value builds (got %s)" % ("ok" if rb.ok else type(rb.exc).__name__ + ": " + str(rb.exc)[:60]), rb.ok)
         ctx.check("build lays the elements out as parse read them", ctx.eq(rb.value, data[:used]))
+        return "ok"
+    if p.get("kind") == "selectscope":
+        d = mk(C, p["source"])
+        kw = p["kw"] or {}
+        data = ctx.bytes("data", 5)
+        st = ctx.stream(data)
+        rp = api.outcome(d.parse_stream, st, **kw)
+        if not rp.ok:
+            return "reject"
+        used = st.tell()
+        rb = api.outcome(d.build, rp.value, **kw)
+        ctx.check("the parsed value builds: names resolve inside the alternatives as they did when parsing (got %s)" % ("ok" if rb.ok else type(rb.exc).__name__ + ": " + str(rb.exc)[:70].replace(chr(10), " ")), rb.ok)
+        back = api.outcome(d.parse, rb.value, **kw)
+        ctx.check("and the built bytes parse to the same value", back.ok and ctx.fork(ctx.eq(_plain(back.value), _plain(rp.value))))
         return "ok"
     if p.get("kind") == "lazybuild":
         src_ = {"flat": "LazyStruct('count'/Rebuild(VarInt, len_(this.items)), 'items'/Array(this.count, Byte), 'tail'/Byte)",
